@@ -238,6 +238,20 @@ func VH_C17_shape(vm *VM, inst int) {
 	reach("c17/shape", true)
 }
 
+// VH_C17_disj: every parenthesisation of an alternation of 3..4 bodies (joined by ; or |, by case split) of which one
+// is an if-then ( [k0] -> [k1] ); inst = alternatives-3.
+func VH_C17_disj(vm *VM, inst int) {
+	n := 3 + inst%2
+	pos := choice("itpos", n)
+	alts := []string{"[k0]", "[k1], [k0]", "[k0], [k0]", "[]"}[:n]
+	alts[pos] = "( [k0] -> [k1] )"
+	sep := []string{" ; ", " | "}[choice("sep", 2)]
+	trees := c03TreesSep(alts, sep)
+	body := trees[choice("shape", len(trees))]
+	c17Run(vm, c17Case{name: "disj-shape", grammar: "x --> " + body + ".", queries: []string{"phrase(x, [i0, i1]).", "phrase(x, [i0, i1], R).", "phrase(x, [i0], R).", "phrase(x, L)."}})
+	reach("c17/disj", true)
+}
+
 func c17Run(vm *VM, c c17Case) {
 	vm.doubleQuotes = doubleQuotesChars
 	qi := choice("query", len(c.queries))
